@@ -33,6 +33,8 @@ def ops_alphabet():
     for g in (G("CNOT"), G("CPHASE", 0.3), W("controlled", G("X"), k=1), G("custom2"), G("customsym2"), W("controlled", G("RY", "s:theta"), k=1)):
         A += [{"gate": g, "q": list(p)} for p in ((0, 1), (2, 0), (1, 2))]
     A.append({"gate": W("exp", G("RZ", 0.3)), "q": [1]})
+    # parameters that are EXPRESSIONS of the symbol (an inverse / controlled version is built first and bound afterwards)
+    A += [{"gate": G("RX", "s:2*theta"), "q": [1]}, {"gate": G("RY", "s:theta+0.5"), "q": [2]}, {"gate": W("controlled", G("RZ", "s:-theta/2"), k=1), "q": [0, 2]}, {"gate": G("U3", "s:theta", 0.4, "s:3*theta"), "q": [0]}]
     # second members of each wrapper kind with EQUAL parameters (wrapper names alone do not identify a gate): c-Z next to c-X, S.dagger next to T.dagger, ...
     A += [{"gate": W("controlled", G("Z"), k=1), "q": list(p)} for p in ((0, 1), (2, 0), (1, 2))]
     A += [{"gate": W("dagger", G("S")), "q": [q]} for q in (0, 2)] + [{"gate": W("power", G("S"), e=3), "q": [q]} for q in (0, 2)]
@@ -68,11 +70,18 @@ def unitary(circ, sub):
 
 
 def bound_ops(ops, sub):
-    import json
-    txt = json.dumps(ops)
-    for k, v in sub.items():
-        txt = txt.replace('"s:%s"' % k, repr(v))
-    return json.loads(txt)
+    """the descriptors with every symbolic parameter ('s:<expression>') replaced by its value at `sub`"""
+    from mc.lib import param
+
+    def walk(x):
+        if isinstance(x, str) and x.startswith("s:"):
+            return float(sympy.sympify(param(x)).subs({sympy.Symbol(k): v for k, v in sub.items()}))
+        if isinstance(x, list):
+            return [walk(v) for v in x]
+        if isinstance(x, dict):
+            return {k: walk(v) for k, v in x.items()}
+        return x
+    return walk(ops)
 
 
 def inverse_case(case):
@@ -90,6 +99,12 @@ def inverse_case(case):
     for sub in SUBS:
         U = ref_unitary(bound_ops(case["ops"], sub), n)
         Ui = unitary(inv, sub) if inv.operations else np.eye(2 ** n)
+        if inv.operations and inv.free_symbols and not any(has(o, lambda g: g.get("w") in ("exp", "power")) for o in case["ops"]):
+            # the same inverse bound as a whole (Circuit.bind) - the route a user takes - must be the same circuit as the one bound operation by operation
+            whole = inv.bind({sympy.Symbol(k_): v_ for k_, v_ in sub.items()})
+            k += 1
+            if whole.free_symbols or not _close(unitary(whole, {}), Ui, atol=ATOL):
+                return {"ok": False, "msg": "the inverse bound with Circuit.bind still has free symbols / differs from the inverse bound operation by operation", "sig": "inverse:bind", "ops": k}
         Uii = unitary(inv.inverse(), sub) if inv.operations else np.eye(2 ** n)
         k += 2
         if not _close(Uii, U, atol=ATOL):
